@@ -34,6 +34,10 @@ from wpull.protocol.http.client import Client as HTTPClient
 from wpull.protocol.http.request import Request
 from wpull.body import Body
 from wpull.warc.recorder import WARCRecorder, WARCRecorderParams
+from wpull.protocol.ftp.client import Client as FTPClient
+from wpull.protocol.ftp.request import Request as FTPRequest
+from wpull.errors import ServerError
+from simlib.tape import Tape
 import wpull.warc.format
 from wpull.database.sqltable import SQLiteURLTable
 
@@ -44,7 +48,7 @@ LEVELS = {'C04': 'exploration', 'C05': 'exploration', 'C07': 'exploration'}
 PROBES = {
     'C04': ['framing.length', 'framing.chunked', 'framing.close', 'framing.none', 'surplus', 'truncated', 'post_body',
             'keepalive_reuse', 'concurrent_fetchers', 'lf_only', 'trailers', 'overrun_branch'],
-    'C05': ['compressed', 'uncompressed', 'digests_on', 'digests_off', 'rollover', 'appending', 'log_record', 'extra_fields',
+    'C05': ['ftp_sessions', 'ftp_records', 'compressed', 'uncompressed', 'digests_on', 'digests_off', 'rollover', 'appending', 'log_record', 'extra_fields',
             'revisit', 'noncanonical_header', 'empty_body', 'big_body'],
     'C07': ['compressed', 'uncompressed', 'rollover', 'appending', 'multiline_header', 'plus_mime', 'no_content_type',
             'huge_header', 'cdx_lines'],
@@ -231,6 +235,33 @@ def run_phase(tape, r, sandbox, phase, params, exs, url_table, timeout=60.0):
                 url_table=url_table, software_string='verif-sim/1')
             recorder = WARCRecorder(os.path.join(sandbox, 'out'), params=wparams)
             recorder.listen_to_http_client(client)
+            # FTP sessions interleaved with the HTTP ones (FTP recorder session: control conversation + resource records)
+            ftp_jobs = []
+            if tape.chance(1, 4, 'ftp_sessions'):
+                from harness import ftp as hftp
+                fh = hftp.H()
+                fh.r = r
+                fh.tape = tape
+                fh.loop = loop
+                fh.plan = {'welcome': hftp.WELCOMES[tape.draw(len(hftp.WELCOMES), 'ftp.welcome')], 'mlsd': tape.chance(1, 2, 'ftp.mlsd'), 'user_230': False}
+                fh.stape = Tape(tape.draw(1 << 20, 'ftp.shape_seed'))
+                fh.multi_ok = True
+                fh.unexpected_verbs = []
+                fh.transfers = []
+                fh.files = {}
+                fh.listing_mlsd = b'type=file;size=10;modify=20180101000000; a.txt\r\n'
+                fh.listing_list = b'-rw-r--r--   1 ftp  ftp        10 Jan 01  2018 a.txt\r\n'
+                net.add_host('ftp.test', '10.0.1.1')
+                hftp.FTPServer(fh, net, tape)
+                ftp_client = FTPClient(connection_pool=pool)
+                recorder.listen_to_ftp_client(ftp_client)
+                for j in range(tape.between(1, 2, 'ftp.n')):
+                    kind = 'listing' if tape.chance(1, 3, 'ftp.listing') else 'file'
+                    path = '/pub/f%d.bin' % j if kind == 'file' else '/pub/'
+                    if kind == 'file':
+                        fh.files[path.encode()] = bytes((j * 7 + k) % 256 for k in range(tape.choice((0, 1, 300, 9000), 'ftp.size')))
+                    ftp_jobs.append((kind, path))
+                r.probes['ftp_sessions'] += 1
             nfetch = tape.between(1, 3, 'nfetchers')
             queue = list(exs)
 
@@ -266,8 +297,29 @@ def run_phase(tape, r, sandbox, phase, params, exs, url_table, timeout=60.0):
                     yield from asyncio.sleep(0.001)
 
             @asyncio.coroutine
+            def ftp_fetcher():
+                for kind, path in ftp_jobs:
+                    f = io.BytesIO()
+                    try:
+                        with ftp_client.session() as session:
+                            request = FTPRequest('ftp://ftp.test' + path)
+                            if kind == 'file':
+                                yield from session.start(request)
+                                yield from session.download(f)
+                            else:
+                                yield from session.start_listing(request)
+                                yield from session.download_listing(f)
+                        r.log('phase %d ftp %s %s ok' % (phase, kind, path))
+                    except (NetworkError, ProtocolError, ServerError) as e:
+                        r.log('phase %d ftp %s %s -> %s' % (phase, kind, path, type(e).__name__))
+                    yield from asyncio.sleep(0.001)
+
+            @asyncio.coroutine
             def main():
-                yield from asyncio.gather(*[fetcher(i) for i in range(nfetch)])
+                jobs = [fetcher(i) for i in range(nfetch)]
+                if ftp_jobs:
+                    jobs.append(ftp_fetcher())
+                yield from asyncio.gather(*jobs)
 
             try:
                 env.run(main())
@@ -486,6 +538,7 @@ def run(tape, prop, tier):
             r.probes['rollover'] += 1
         if any(x.get('WARC-Type') == 'revisit' for x in records):
             r.probes['revisit'] += 1
+        r.probes['ftp_records'] += len([x for x in records if (x.get('WARC-Target-URI') or '').startswith('ftp://')])
         r.workload = ([(ph['params'], ph['n']) for ph in phases], [(e['path'], e['method'], e['resp'].desc) for e in all_ex])
         nrec = len([x for x in records if x.get('WARC-Type') != 'warcinfo'])
         active = nfiles > 1 or any(ph['params']['appending'] or ph['params']['compress'] for ph in phases) or r.probes.get('revisit')
@@ -570,7 +623,7 @@ def judge_c04(r, all_ex, records, phases):
                         r.violate('C04', 'concurrent-to', shape, '%s: response names %s, request records are %r'
                                   % (uri, ct, [q.get('WARC-Record-ID') for q in reqs]))
     for uri in by_uri:
-        if uri not in known_uris:
+        if uri not in known_uris and not (uri or '').startswith('ftp://'):
             r.violate('C04', 'foreign-record', 'record-for-unrequested-uri', uri)
 
 
